@@ -410,3 +410,78 @@ func VH_C16_totext_valign_Q() {
 		}
 	}
 }
+
+// C16-H6: two font faces in one paragraph ("all strings x faces"): "ab " in the default face,
+// "cd" in a face twice as large, " e" in the default face again.  Every character once and in
+// order, each span carries the face its characters were written with and the width its glyphs
+// have in that face, spans do not overlap, no line beyond the width unless Overflows, and a line
+// that contains the large face is at least the large ascent below the top of the previous line's
+// baseline (lines do not run into each other).
+func VH_C16_totext_faces_Q() {
+	if !vInterp() {
+		return
+	}
+	vStub("!(github.com/tdewolff/canvas/text.Shaper).Shape", vhC16Shape)
+	vStub("!github.com/tdewolff/canvas/text.EmbeddingLevels", vhC16Levels)
+	vStub("!github.com/tdewolff/canvas/text.LookupScript", vhC16Script)
+	la := int32(vNondetIntQ(11))
+	vAssumeI(100 <= la && la <= 900)
+	vhC16Adv = map[rune]int32{' ': 250, 'a': la, 'b': la, 'c': la, 'd': la, 'e': la}
+	width := vNondetF64()
+	vAssumeI(1 <= width && width <= 80)
+	small := vhC16Face()
+	big := vhC16Face()
+	big.Size, big.MmPerEm = 20, 0.02
+	halign := []TextAlign{Left, Right}[vChoose(0, 1)]
+	rt := NewRichText(small)
+	rt.WriteString("ab ")
+	rt.WriteFace(big, "cd")
+	rt.WriteString(" e")
+	s := "ab cd e"
+	t := rt.ToText(width, 0, halign, Top, 0, 0)
+	seen := make([]int, len(s))
+	order, faces, widths, noOverlap, inside, apart := true, true, true, true, true, true
+	last := -1
+	for j, ln := range t.lines {
+		end := 0.0
+		hasBig := false
+		for k, sp := range ln.spans {
+			adv := int32(0)
+			for _, g := range sp.Glyphs {
+				c := int(g.Cluster)
+				if c < len(s) {
+					seen[c]++
+					order = order && c > last
+					last = c
+					wantBig := c == 3 || c == 4
+					faces = faces && ((sp.Face == big) == wantBig || s[c] == ' ')
+				}
+				adv += g.XAdvance
+			}
+			hasBig = hasBig || sp.Face == big
+			widths = widths && vhNear(sp.Width, sp.Face.MmPerEm*float64(adv))
+			if k > 0 {
+				noOverlap = noOverlap && sp.X >= end-1e-9
+			}
+			end = sp.X + sp.Width
+		}
+		if len(ln.spans) > 0 {
+			inside = inside && (t.Overflows || end <= width+0.1)
+		}
+		if j > 0 && hasBig {
+			apart = apart && ln.y-t.lines[j-1].y >= 16 // ascent of the large face (800 * 0.02)
+		}
+	}
+	once := true
+	for i := range s {
+		if s[i] != ' ' {
+			once = once && seen[i] == 1
+		}
+	}
+	vAssertI("C16.faces.every_ink_character_once_in_order", once && order)
+	vAssertI("C16.faces.spans_carry_their_face", faces)
+	vAssertI("C16.faces.span_width_is_its_glyphs_in_its_face", widths)
+	vAssertI("C16.faces.spans_do_not_overlap", noOverlap)
+	vAssertI("C16.faces.inside_width_unless_overflows", inside)
+	vAssertI("C16.faces.tall_line_clears_previous_line", apart)
+}
